@@ -318,7 +318,111 @@ fn c01_box_object(i: &Input) -> Outcome {
     eq("DryocBox::unseal plaintext (libsodium seal)", b.m, &p5)
 }
 
+/// The object API takes keys and nonces in any byte container; the result is a function of the LEADING bytes of the
+/// container only (libsodium reads a key / nonce from the start of the buffer it is handed).  k, n, ska, skb, m and
+/// `ktail` / `ntail`: bytes that FOLLOW the key / the nonce in the caller's buffer (a key file with a trailing key id, a
+/// header that starts with the nonce, a 64-byte sk || pk record).  The same call is made with borrowed slices `&[u8]`
+/// of the long buffers, with Vecs holding the same bytes, with exact-length slices / arrays, and compared with
+/// libsodium on the leading bytes.
+fn c01_object_long_containers(i: &Input) -> Outcome {
+    use dryoc::dryocbox::VecBox as BVecBox;
+    use dryoc::dryocsecretbox::VecBox as SVecBox;
+    use dryoc::precalc::PrecalcSecretKey;
+    use dryoc::types::Bytes;
+    let (k, n, m) = (i.arr::<32>("k"), i.arr::<24>("n"), i.get("m"));
+    let (ktail, ntail) = (i.get("ktail"), i.get("ntail"));
+    let b = box_in(i);
+    let long = |head: &[u8], tail: &[u8]| -> Vec<u8> { [head, tail].concat() };
+    let how = format!("{} / {} trailing bytes after key / nonce", ktail.len(), ntail.len());
+
+    // ---- secret box
+    let want = so::secretbox_easy(m, &n, &k);
+    let (kbuf, nbuf) = (long(&k, ktail), long(&n, ntail));
+    let (kslice, nslice): (&[u8], &[u8]) = (&kbuf, &nbuf);
+    let (kexact, nexact): (&[u8], &[u8]) = (&k, &n);
+
+    let c = SVecBox::encrypt_to_vecbox(m, &nslice, &kslice);
+    eq(&format!("DryocSecretBox::encrypt, key and nonce as borrowed slices &[u8] ({})", how), &want, &c.to_vec())?;
+    let c = SVecBox::encrypt_to_vecbox(m, &nbuf, &kbuf);
+    eq(&format!("DryocSecretBox::encrypt, key and nonce in Vecs ({})", how), &want, &c.to_vec())?;
+    let c = SVecBox::encrypt_to_vecbox(m, &n, &kslice);
+    eq(&format!("DryocSecretBox::encrypt, key as borrowed slice, nonce as array ({})", how), &want, &c.to_vec())?;
+    let c = SVecBox::encrypt_to_vecbox(m, &nslice, &k);
+    eq(&format!("DryocSecretBox::encrypt, nonce as borrowed slice, key as array ({})", how), &want, &c.to_vec())?;
+    let c = SVecBox::encrypt_to_vecbox(m, &nexact, &kexact);
+    eq("DryocSecretBox::encrypt, key and nonce as exact-length slices", &want, &c.to_vec())?;
+
+    let sbx = must_ok(SVecBox::from_bytes(&want), "DryocSecretBox::from_bytes(libsodium ciphertext)")?;
+    let p = must_ok(
+        sbx.decrypt_to_vec(&nslice, &kslice),
+        &format!("DryocSecretBox::decrypt (libsodium box), key and nonce as borrowed slices ({})", how),
+    )?;
+    eq("DryocSecretBox::decrypt plaintext (slice containers)", m, &p)?;
+    let p = must_ok(
+        sbx.decrypt_to_vec(&nbuf, &kbuf),
+        &format!("DryocSecretBox::decrypt (libsodium box), key and nonce in Vecs ({})", how),
+    )?;
+    eq("DryocSecretBox::decrypt plaintext (Vec containers)", m, &p)?;
+    let p = must_ok(sbx.decrypt_to_vec(&nexact, &kexact), "DryocSecretBox::decrypt (libsodium box), exact-length slices")?;
+    eq("DryocSecretBox::decrypt plaintext (exact-length slices)", m, &p)?;
+
+    // ---- public-key box: sender a -> recipient b
+    let want = so_box_easy(&b)?;
+    let (pkb_buf, ska_buf) = (long(&b.pkb, ktail), long(&b.ska, &long(&b.pka, ktail)));
+    let (pka_buf, skb_buf) = (long(&b.pka, ktail), long(&b.skb, &long(&b.pkb, ktail)));
+    let nbuf = long(&b.n, ntail);
+    let (pkb_s, ska_s, pka_s, skb_s, n_s): (&[u8], &[u8], &[u8], &[u8], &[u8]) = (&pkb_buf, &ska_buf, &pka_buf, &skb_buf, &nbuf);
+
+    let c: BVecBox = must_ok(BVecBox::encrypt(m, &n_s, &pkb_s, &ska_s), "DryocBox::encrypt (slice containers)")?;
+    eq(&format!("DryocBox::encrypt, nonce and keys as borrowed slices &[u8] ({}; secret key followed by its public key)", how), &want, &c.to_vec())?;
+    let c: BVecBox = must_ok(BVecBox::encrypt(m, &nbuf, &pkb_buf, &ska_buf), "DryocBox::encrypt (Vec containers)")?;
+    eq(&format!("DryocBox::encrypt, nonce and keys in Vecs ({})", how), &want, &c.to_vec())?;
+    let c: BVecBox = must_ok(BVecBox::encrypt(m, &b.n, &pkb_s, &b.ska), "DryocBox::encrypt (public key slice)")?;
+    eq(&format!("DryocBox::encrypt, recipient public key as borrowed slice ({})", how), &want, &c.to_vec())?;
+    let c: BVecBox = must_ok(BVecBox::encrypt(m, &b.n, &b.pkb, &ska_s), "DryocBox::encrypt (secret key slice)")?;
+    eq(&format!("DryocBox::encrypt, sender secret key as borrowed slice ({})", how), &want, &c.to_vec())?;
+    let (pkb_e, ska_e, n_e): (&[u8], &[u8], &[u8]) = (&b.pkb, &b.ska, &b.n);
+    let c: BVecBox = must_ok(BVecBox::encrypt(m, &n_e, &pkb_e, &ska_e), "DryocBox::encrypt (exact-length slices)")?;
+    eq("DryocBox::encrypt, nonce and keys as exact-length slices", &want, &c.to_vec())?;
+
+    let bx = must_ok(BVecBox::from_bytes(&want), "DryocBox::from_bytes(libsodium ciphertext)")?;
+    let p: Vec<u8> = must_ok(
+        bx.decrypt(&n_s, &pka_s, &skb_s),
+        &format!("DryocBox::decrypt (libsodium box), nonce and keys as borrowed slices ({})", how),
+    )?;
+    eq("DryocBox::decrypt plaintext (slice containers)", m, &p)?;
+    let p: Vec<u8> = must_ok(
+        bx.decrypt(&nbuf, &pka_buf, &skb_buf),
+        &format!("DryocBox::decrypt (libsodium box), nonce and keys in Vecs ({})", how),
+    )?;
+    eq("DryocBox::decrypt plaintext (Vec containers)", m, &p)?;
+
+    // precomputed key from slice / Vec containers
+    let want_k = so::box_beforenm(&b.pkb, &b.ska).expect("honest keys");
+    let pre = PrecalcSecretKey::precalculate(&pkb_s, &ska_s);
+    eq(&format!("PrecalcSecretKey::precalculate, keys as borrowed slices ({})", how), &want_k, pre.as_slice())?;
+    let pre = PrecalcSecretKey::precalculate(&pkb_buf, &ska_buf);
+    eq(&format!("PrecalcSecretKey::precalculate, keys in Vecs ({})", how), &want_k, pre.as_slice())?;
+    let c: BVecBox = must_ok(BVecBox::precalc_encrypt(m, &n_s, &pre), "DryocBox::precalc_encrypt (nonce slice)")?;
+    eq(&format!("DryocBox::precalc_encrypt, nonce as borrowed slice ({})", how), &want, &c.to_vec())?;
+    let p: Vec<u8> = must_ok(bx.precalc_decrypt(&n_s, &pre), "DryocBox::precalc_decrypt (nonce slice)")?;
+    eq("DryocBox::precalc_decrypt plaintext (nonce as borrowed slice)", m, &p)?;
+
+    // sealed box to a public key handed over as a slice
+    let sealed: BVecBox = must_ok(BVecBox::seal(m, &pkb_s), "DryocBox::seal (public key slice)")?;
+    let wire = sealed.to_vec();
+    match so::box_seal_open(&wire, &b.pkb, &b.skb) {
+        Some(p) => eq("libsodium seal_open of DryocBox::seal (recipient key as borrowed slice)", m, &p),
+        None => fail(
+            "Ok",
+            "Err",
+            format!("libsodium rejects DryocBox::seal output made for a recipient key passed as a borrowed slice ({})", how),
+        ),
+    }
+}
+
 pub const C01: Registry = &[
+    ("object_long_containers", c01_object_long_containers),
     ("secretbox_easy", c01_secretbox_easy),
     ("secretbox_detached", c01_secretbox_detached),
     ("secretbox_inplace", c01_secretbox_inplace),
@@ -382,8 +486,28 @@ pub fn c01(ctx: &mut Ctx) -> Search {
             ctx.run("seal_sodium_to_dryoc", sl)?;
         }
     }
-    // constructed ciphertexts: Poly1305 accumulator on its edge values
+    // keys / nonces handed over in containers LONGER than the fixed length (borrowed slices, Vecs): only the leading
+    // bytes count.  Tails: one byte, a key id, a whole second key (sk || pk records), a page.
     let t = ctx.thorough;
+    let tails: Vec<(usize, usize)> = if t {
+        vec![(1, 1), (8, 8), (4, 16), (32, 8), (32, 0), (0, 8), (0, 0), (100, 40), (4096, 4072), (31, 23)]
+    } else {
+        vec![(1, 1), (8, 8), (32, 16), (0, 8), (8, 0), (0, 0)]
+    };
+    for (kt, nt) in tails {
+        let mlens: Vec<usize> = if t { vec![0, 1, 15, 16, 17, 64, 255, 1000, 5000] } else { vec![0, 1, 17, 64, 1000] };
+        for len in mlens {
+            let m = ctx.rng.bytes(len);
+            let (k, n) = (ctx.rng.arr::<32>(), ctx.rng.arr::<24>());
+            let (ska, skb) = (ctx.rng.arr::<32>(), ctx.rng.arr::<32>());
+            let (ktail, ntail) = (ctx.rng.bytes(kt), ctx.rng.bytes(nt));
+            ctx.run(
+                "object_long_containers",
+                Input::new().b("k", &k).b("n", &n).b("ska", &ska).b("skb", &skb).b("m", &m).b("ktail", &ktail).b("ntail", &ntail),
+            )?;
+        }
+    }
+    // constructed ciphertexts: Poly1305 accumulator on its edge values
     for _ in 0..(if t { 8 } else { 2 }) {
         let (k, n) = (ctx.rng.arr::<32>(), ctx.rng.arr::<24>());
         for m in poly1305_edge_plaintexts(&mut ctx.rng, &k, &n, t) {
@@ -865,25 +989,49 @@ fn inplace_clean(what: &str, before: &[u8], after: &[u8], tag_prefix: usize) -> 
     }
 }
 
+/// Optional input `extra`: the caller's message buffer is that many bytes LONGER than the message (a fixed-size receive
+/// buffer, as in code ported from libsodium).  The statement is the same: after Err the WHOLE buffer is what it was, or
+/// all zero.  (Whether a genuine box opens into such a buffer is a C01 matter and not looked at here.)
+fn extra_of(i: &Input) -> usize {
+    if i.has("extra") {
+        i.num("extra") as usize
+    } else {
+        0
+    }
+}
+
+fn larger(what: &str, extra: usize) -> String {
+    if extra == 0 {
+        what.to_string()
+    } else {
+        format!("{} (message buffer {} bytes longer than the message)", what, extra)
+    }
+}
+
 /// k, n, c: c must be rejected (checked against libsodium).
 fn c17_secretbox(i: &Input) -> Outcome {
     let (k, n, c) = (i.arr::<32>("k"), i.arr::<24>("n"), i.get("c"));
     if so::secretbox_open_easy(c, &n, &k).is_some() {
         panic!("{} C17 case needs a ciphertext that libsodium rejects", HARNESS);
     }
-    let mlen = c.len().saturating_sub(16);
+    let extra = extra_of(i);
+    let mlen = c.len().saturating_sub(16) + extra;
 
     let mut out = vec![FILL; mlen];
-    must_err(crypto_secretbox_open_easy(&mut out, c, &n, &k), "crypto_secretbox_open_easy")?;
-    untouched_or_zero("crypto_secretbox_open_easy", &out)?;
+    must_err(crypto_secretbox_open_easy(&mut out, c, &n, &k), &larger("crypto_secretbox_open_easy", extra))?;
+    untouched_or_zero(&larger("crypto_secretbox_open_easy", extra), &out)?;
 
     if let Some((mac, body)) = split_mac(c) {
         let mut out = vec![FILL; mlen];
         must_err(
             crypto_secretbox_open_detached(&mut out, &mac, body, &n, &k),
-            "crypto_secretbox_open_detached",
+            &larger("crypto_secretbox_open_detached", extra),
         )?;
-        untouched_or_zero("crypto_secretbox_open_detached", &out)?;
+        untouched_or_zero(&larger("crypto_secretbox_open_detached", extra), &out)?;
+    }
+    if extra > 0 {
+        // the in-place forms have no separate message buffer
+        return Ok(());
     }
     let mut data = c.to_vec();
     must_err(
@@ -898,38 +1046,46 @@ fn c17_box(i: &Input) -> Outcome {
     if so::box_open_easy(c, &n, &pk, &sk).is_some() {
         panic!("{} C17 case needs a ciphertext that libsodium rejects", HARNESS);
     }
-    let mlen = c.len().saturating_sub(16);
+    let extra = extra_of(i);
+    let mlen = c.len().saturating_sub(16) + extra;
 
     let mut out = vec![FILL; mlen];
-    must_err(crypto_box_open_easy(&mut out, c, &n, &pk, &sk), "crypto_box_open_easy")?;
-    untouched_or_zero("crypto_box_open_easy", &out)?;
+    must_err(crypto_box_open_easy(&mut out, c, &n, &pk, &sk), &larger("crypto_box_open_easy", extra))?;
+    untouched_or_zero(&larger("crypto_box_open_easy", extra), &out)?;
 
-    let mut data = c.to_vec();
-    must_err(crypto_box_open_easy_inplace(&mut data, &n, &pk, &sk), "crypto_box_open_easy_inplace")?;
-    inplace_clean("crypto_box_open_easy_inplace", c, &data, 16)?;
+    if extra == 0 {
+        let mut data = c.to_vec();
+        must_err(crypto_box_open_easy_inplace(&mut data, &n, &pk, &sk), "crypto_box_open_easy_inplace")?;
+        inplace_clean("crypto_box_open_easy_inplace", c, &data, 16)?;
+    }
 
     if let Some((mac, body)) = split_mac(c) {
         let mut out = vec![FILL; mlen];
         must_err(
             crypto_box_open_detached(&mut out, &mac, body, &n, &pk, &sk),
-            "crypto_box_open_detached",
+            &larger("crypto_box_open_detached", extra),
         )?;
-        untouched_or_zero("crypto_box_open_detached", &out)?;
+        untouched_or_zero(&larger("crypto_box_open_detached", extra), &out)?;
 
-        let mut data = body.to_vec();
-        must_err(
-            crypto_box_open_detached_inplace(&mut data, &mac, &n, &pk, &sk),
-            "crypto_box_open_detached_inplace",
-        )?;
-        inplace_clean("crypto_box_open_detached_inplace", body, &data, 0)?;
+        if extra == 0 {
+            let mut data = body.to_vec();
+            must_err(
+                crypto_box_open_detached_inplace(&mut data, &mac, &n, &pk, &sk),
+                "crypto_box_open_detached_inplace",
+            )?;
+            inplace_clean("crypto_box_open_detached_inplace", body, &data, 0)?;
+        }
 
         if let Some(key) = so::box_beforenm(&pk, &sk) {
             let mut out = vec![FILL; mlen];
             must_err(
                 crypto_box_open_detached_afternm(&mut out, &mac, body, &n, &key),
-                "crypto_box_open_detached_afternm",
+                &larger("crypto_box_open_detached_afternm", extra),
             )?;
-            untouched_or_zero("crypto_box_open_detached_afternm", &out)?;
+            untouched_or_zero(&larger("crypto_box_open_detached_afternm", extra), &out)?;
+            if extra > 0 {
+                return Ok(());
+            }
             let mut data = body.to_vec();
             must_err(
                 crypto_box_open_detached_afternm_inplace(&mut data, &mac, &n, &key),
@@ -946,9 +1102,10 @@ fn c17_seal(i: &Input) -> Outcome {
     if so::box_seal_open(c, &pk, &sk).is_some() {
         panic!("{} C17 case needs a ciphertext that libsodium rejects", HARNESS);
     }
-    let mut out = vec![FILL; c.len().saturating_sub(48)];
-    must_err(crypto_box_seal_open(&mut out, c, &pk, &sk), "crypto_box_seal_open")?;
-    untouched_or_zero("crypto_box_seal_open", &out)
+    let extra = extra_of(i);
+    let mut out = vec![FILL; c.len().saturating_sub(48) + extra];
+    must_err(crypto_box_seal_open(&mut out, c, &pk, &sk), &larger("crypto_box_seal_open", extra))?;
+    untouched_or_zero(&larger("crypto_box_seal_open", extra), &out)
 }
 
 fn c17_stream(i: &Input) -> Outcome {
@@ -959,13 +1116,14 @@ fn c17_stream(i: &Input) -> Outcome {
     }
     let mut state = ss::State::new();
     ss::crypto_secretstream_xchacha20poly1305_init_pull(&mut state, &header, &k);
-    let mut out = vec![FILL; c.len().saturating_sub(17)];
+    let extra = extra_of(i);
+    let mut out = vec![FILL; c.len().saturating_sub(17) + extra];
     let mut tag = 0x55u8;
     must_err(
         ss::crypto_secretstream_xchacha20poly1305_pull(&mut state, &mut out, &mut tag, c, Some(ad)),
-        "crypto_secretstream_xchacha20poly1305_pull",
+        &larger("crypto_secretstream_xchacha20poly1305_pull", extra),
     )?;
-    untouched_or_zero("crypto_secretstream_xchacha20poly1305_pull", &out)?;
+    untouched_or_zero(&larger("crypto_secretstream_xchacha20poly1305_pull", extra), &out)?;
     if tag != 0x55 {
         return fail(
             "55",
@@ -981,6 +1139,11 @@ pub const C17: Registry = &[
     ("box_failed_open", c17_box),
     ("seal_failed_open", c17_seal),
     ("stream_failed_pull", c17_stream),
+    // same bodies with the extra input `extra`: the caller's message buffer is longer than the message
+    ("secretbox_failed_open_larger_buffer", c17_secretbox),
+    ("box_failed_open_larger_buffer", c17_box),
+    ("seal_failed_open_larger_buffer", c17_seal),
+    ("stream_failed_pull_larger_buffer", c17_stream),
 ];
 
 pub fn c17(ctx: &mut Ctx) -> Search {
@@ -1008,9 +1171,15 @@ pub fn c17(ctx: &mut Ctx) -> Search {
                 .collect()
         };
 
+        // message buffers larger than the message (by 1 byte, a MAC, a fixed-size receive buffer)
+        let extras: Vec<u64> = if t { vec![1, 16, 100, 4096] } else { vec![1, 16, 100] };
+
         let c = so::secretbox_easy(&m, &n, &k);
         for c2 in pick(&c, 16) {
             ctx.run("secretbox_failed_open", Input::new().b("k", &k).b("n", &n).b("c", &c2))?;
+            for e in &extras {
+                ctx.run("secretbox_failed_open_larger_buffer", Input::new().b("k", &k).b("n", &n).b("c", &c2).u("extra", *e))?;
+            }
         }
 
         let (ska, skb) = (ctx.rng.arr::<32>(), ctx.rng.arr::<32>());
@@ -1021,11 +1190,34 @@ pub fn c17(ctx: &mut Ctx) -> Search {
                 "box_failed_open",
                 Input::new().b("pk", &pka).b("sk", &skb).b("n", &n).b("c", &c2),
             )?;
+            for e in &extras {
+                ctx.run(
+                    "box_failed_open_larger_buffer",
+                    Input::new().b("pk", &pka).b("sk", &skb).b("n", &n).b("c", &c2).u("extra", *e),
+                )?;
+            }
+        }
+        // wrong nonce / wrong recipient key with a larger buffer
+        {
+            let mut n2 = n;
+            n2[23] ^= 0x40;
+            let sk2 = ctx.rng.arr::<32>();
+            for e in &extras {
+                ctx.run(
+                    "box_failed_open_larger_buffer",
+                    Input::new().b("pk", &pka).b("sk", &skb).b("n", &n2).b("c", &c).u("extra", *e),
+                )?;
+                ctx.run(
+                    "box_failed_open_larger_buffer",
+                    Input::new().b("pk", &pka).b("sk", &sk2).b("n", &n).b("c", &c).u("extra", *e),
+                )?;
+            }
         }
 
         let c = so::box_seal(&m, &pkb);
         for c2 in pick(&c, 48) {
             ctx.run("seal_failed_open", Input::new().b("pk", &pkb).b("sk", &skb).b("c", &c2))?;
+            ctx.run("seal_failed_open_larger_buffer", Input::new().b("pk", &pkb).b("sk", &skb).b("c", &c2).u("extra", extras[len % extras.len()]))?;
         }
 
         let header = ctx.rng.arr::<24>();
@@ -1042,6 +1234,12 @@ pub fn c17(ctx: &mut Ctx) -> Search {
                 "stream_failed_pull",
                 Input::new().b("k", &k).b("header", &header).b("c", &c2).b("ad", &ad),
             )?;
+            for e in &extras {
+                ctx.run(
+                    "stream_failed_pull_larger_buffer",
+                    Input::new().b("k", &k).b("header", &header).b("c", &c2).b("ad", &ad).u("extra", *e),
+                )?;
+            }
         }
     }
     Ok(())
